@@ -178,8 +178,13 @@ func (e *Engine) VerifyUnit(c *Contract) (r *FnRun) {
 	}
 	// post-state value of captured variables: name' is not expressible; use post(name)
 	for _, en := range c.Ensures {
-		goal := Implies(retGuard, post.Bool(en.E))
-		r.addObl("ensures", en.Label, goal, en.Src, &en, fn.Pos())
+		t, ok := post.tryBool(en.E)
+		if !ok {
+			// the clause speaks about a call (or local, or snapshot) the function no longer has: it cannot hold
+			r.addObl("ensures", en.Label, Not(retGuard), en.Src+"   [cannot be evaluated on this code: a tracked call, local or snapshot it names does not exist any more]", &en, fn.Pos())
+			continue
+		}
+		r.addObl("ensures", en.Label, Implies(retGuard, t), en.Src, &en, fn.Pos())
 	}
 	if len(c.Ensures) > 0 {
 		r.addCover("returns-reachable", retGuard)
